@@ -50,15 +50,96 @@ def _is_not(f, pred):
     return isinstance(f, ast.UnaryOp) and isinstance(f.op, ast.Not) and pred(f.operand)
 
 
+def _value_at(e, scope, fdefs, env, subst=None, depth=0):
+    """value of the expression e (a condition somewhere in `scope`) on representative inputs `env` (minieval; raises CannotEval). Locals are followed by data flow instead of being
+    matched by name: a single-assignment local of the function is replaced by what it was assigned from (`fdefs`); a local that is assigned in several arms inside `scope`
+    (`if a: x = E1 else: x = E2`) takes the value of the ONE assignment whose own conditions hold on these inputs. `subst(expr) -> expr` gives chosen sub-expressions (polls of an
+    event, clock reads) their representative value before evaluation. A local that cannot be resolved stays unbound: the evaluation fails only if it really needs it."""
+    if depth > 6:
+        raise _me.CannotEval("nesting of locals")
+    e1 = source.inline_node(e, fdefs)
+    if subst is not None:
+        e1 = ast.fix_missing_locations(subst(e1))
+    env = dict(env)
+    for nm in sorted({x.id for x in ast.walk(e1) if isinstance(x, ast.Name) and isinstance(x.ctx, ast.Load)} - set(env)):
+        live = []
+        for a in ast.walk(scope):
+            if not (isinstance(a, ast.Assign) and len(a.targets) == 1 and isinstance(a.targets[0], ast.Name) and a.targets[0].id == nm):
+                continue
+            try:
+                if all(bool(_value_at(t, scope, fdefs, env, subst, depth + 1)) == pol for t, pol in guards(a, stop=scope, path_sensitive=True)):
+                    live.append(a)
+            except _me.CannotEval:
+                live += [a, a]  # may or may not be the assignment that is executed: the local has no single value
+        if len(live) == 1:
+            try:
+                env[nm] = _value_at(live[0].value, scope, fdefs, env, subst, depth + 1)
+            except _me.CannotEval:
+                pass
+    return _me.ev(e1, env)
+
+
+def _event_polls(values):
+    """subst for _value_at: a poll `self.<attr>.is_set()` of one of the given event attributes reads values[attr]"""
+
+    class _P(ast.NodeTransformer):
+        def visit_Call(self, n):
+            self.generic_visit(n)
+            if isinstance(n.func, ast.Attribute) and n.func.attr == "is_set" and not n.args and not n.keywords and is_self_attr(n.func.value) and n.func.value.attr in values:
+                return ast.copy_location(ast.Constant(value=values[n.func.value.attr]), n)
+            return n
+
+    return lambda e: _P().visit(e)
+
+
+def _executed_on(node, scope, fdefs, env, events, stop=None):
+    """is `node` executed on the representative inputs `env`? The conditions on the way to it (enclosing tests and guard clauses, either polarity, any boolean structure) are
+    EXTRACTED and evaluated (_value_at); the polls of the request events `events` are free inputs: both outcomes are tried.
+      ('yes', [])     every condition holds for some outcome of the polls
+      ('no', [])      whatever the polls say, some condition is definitely violated
+      ('open', [..])  otherwise: the listed conditions read something that has no representative value"""
+    conds = guards(node, stop=stop, path_sensitive=True)
+    verdicts, open_ = [], []
+    for pv in (False, True):
+        state = "yes"
+        for t, pol in conds:
+            try:
+                v = bool(_value_at(t, scope, fdefs, env, _event_polls({a: pv for a in events})))
+            except _me.CannotEval:
+                state = "open"
+                if inline(t, fdefs) not in open_:
+                    open_.append(inline(t, fdefs))
+                continue
+            if v != pol:
+                state = "no"
+                break
+        verdicts.append(state)
+    if "yes" in verdicts:
+        return "yes", []
+    if all(v == "no" for v in verdicts):
+        return "no", []
+    return "open", open_
+
+
+def _task_env(completes, any_, **more):
+    """the executor of client 0 of a task with the given completed-by flags (two clients); `more`: further locals (the loop variables of the request loop ...)"""
+    return dict({"self": _me.Record(client_id=0, task=_me.Record(completes_parent=completes, any_completes_parent=any_, clients=2))}, **more)
+
+
 def complete_read_exemption_rule(chk, rid, drv):
     """AsyncExecutor.__call__: the shared complete event may end the request loop only for a task that does NOT itself complete its parent — several clients of the completing task
     share the worker's event and the first of them to finish sets it; its siblings must go on until their own runner / iteration count is done. Shared with C05 (each client executes
-    exactly warm-up + measurement iterations). Reads of the event are recognised through single-assignment locals (`poll = self.complete.is_set` hoisted out of the loop,
-    `done = self.complete`), the event attribute itself is located by data flow (the threading.Event the worker sets in its CompleteCurrentTask handler and hands down)."""
+    exactly warm-up + measurement iterations). Decided on VALUES: for every exit of the request loop that a poll of the event controls (directly in a condition on the way to it, or
+    through locals of the loop, whatever their names; the callee may be a hoisted bound method or a private helper of the executor), the conditions on the way to the exit are
+    extracted and evaluated for a client of the completing task whose own runner is not done, once with the event set and once with the event not set: the exit must not be taken
+    because of the event. The spelling of the exemption (an if/else around the poll, `not completes_parent and poll`, a conditional expression ...) plays no role; where the
+    conditions cannot be evaluated the written guard of the poll decides (`not completes_parent` among its guard facts), else the shape is reported as not recognised. The event
+    attribute itself is located by data flow (the threading.Event the worker sets in its CompleteCurrentTask handler and hands down)."""
     from sa import pat as _pat
     ex_call = drv.methods(drv.cls("AsyncExecutor")).get("__call__")
     if ex_call is None:
         raise AnchorMissing("AsyncExecutor.__call__")
+    ex_call = _expand(ex_call, drv.repo)  # a poll extracted into a private helper of the executor is seen in place
     edefs = local_defs(ex_call)
     xloops = [n for n in walk_body(ex_call) if isinstance(n, ast.AsyncFor)] or [n for n in walk_body(ex_call) if isinstance(n, (ast.For, ast.While))]
     if not xloops:
@@ -68,14 +149,23 @@ def complete_read_exemption_rule(chk, rid, drv):
         revs = request_events(drv.repo, drv)
         done = [a for a, (_, setters) in revs.items() if "receiveMsg_CompleteCurrentTask" in setters]
     except AnchorMissing:
-        done = []
+        revs, done = {}, []
     done = done[0] if len(done) == 1 else "complete"
+    quiet = {a: False for a in revs if a != done} or ({"cancel": False} if done == "complete" else {})  # no other request (cancel) has reached the worker
 
     def _reads_complete(e):
         return any(isinstance(x, ast.Call) and u(x.func) == f"self.{done}.is_set" for x in ast.walk(source.inline_node(e, edefs)))
 
     def _exempt(node):
         return any(inline(f_, edefs) in ("not self.task.completes_parent",) for f_ in _pat.fact_nodes(node, stop=XL))
+
+    # what the loop hands to its body per iteration that has a bearing on "is this client's own work done": the runner says it is not
+    loopvars = {x.id: _me.Record(completed=False, percent_completed=None) for x in ast.walk(XL.target) if isinstance(x, ast.Name)} if isinstance(XL, (ast.For, ast.AsyncFor)) else {}
+
+    def _taken(ex_, event_set):
+        """the exit is taken by a client of the completing task whose own runner is not done, with the event set / not set"""
+        env = _task_env(True, False, **loopvars)
+        return all(bool(_value_at(t, XL, edefs, env, _event_polls(dict(quiet, **{done: event_set})))) == pol for t, pol in guards(ex_, stop=XL, path_sensitive=True))
 
     # the polls of the event inside the loop (the callee may be a hoisted bound method) and, per exit of the loop, the polls that control it: directly in a condition on the
     # way to the exit, or through a local of the loop that such a condition reads
@@ -95,12 +185,28 @@ def complete_read_exemption_rule(chk, rid, drv):
                 via = isinstance(st_, ast.Assign) and any(isinstance(tg, ast.Name) and tg.id in names for tg in st_.targets)
                 if (direct or via) and not any(r_ is x for x in ctl):
                     ctl.append(r_)
+        if not ctl:
+            continue
+        try:
+            with_event, without_event = _taken(ex_, True), _taken(ex_, False)
+            decided, why_not = True, ""
+        except _me.CannotEval as x:
+            decided, why_not = False, str(x)
         for r_ in ctl:
             st_ = source.enclosing_stmt(r_)
             n_ctl += 1
-            ok = _exempt(r_)
-            chk.ob(rid, "executor: the complete event ends the loop only when the task does not complete its parent itself", ok, st_,
-                   f"`{short(st_, 70)}` controls `{type(ex_).__name__.lower()}` at line {ex_.lineno}" + ("" if ok else " for every task, including the completing task's own clients"),
+            what = f"`{short(st_, 70)}` controls `{type(ex_).__name__.lower()}` at line {ex_.lineno}"
+            if decided:
+                ok = with_event == without_event
+                detail = what + f": a client of the completing task whose runner is not done leaves the loop: event set -> {with_event}, event not set -> {without_event}" \
+                    + ("" if ok else " (the event ends the completing task's own clients too)")
+            elif _exempt(r_):
+                ok, detail = True, what + " under `not completes_parent`"
+            else:
+                chk.unknown(rid, f"executor: {what}, but the conditions of that exit cannot be evaluated for a client of the completing task ({why_not}) and the poll is not "
+                                 "written under `not completes_parent` (shape not recognised)", st_)
+                continue
+            chk.ob(rid, "executor: the complete event ends the loop only when the task does not complete its parent itself", ok, st_, detail,
                    key=f"{_D}:AsyncExecutor.__call__:complete-read:{short(st_, 60)}")
     if n_ctl == 0:
         polled = [n for n in walk_body(ex_call) if isinstance(n, ast.expr) and not isinstance(n, (ast.Name, ast.Attribute, ast.Constant)) and _reads_complete(n)] + \
@@ -303,6 +409,14 @@ def completing_client_signal_rule(chk, rid, repo, drv):
 # Local helper (not in sa/): a small CONCRETE interpreter for extracted functions on representative model values. minieval.ev evaluates pure expressions only; deciding the
 # allocation matrix "on values" needs statements, loops, mutable lists, helper methods of the same class and constructors. Nothing of the repository is imported or executed:
 # the statements of the analysed functions are walked as syntax trees. Anything outside the interpreted subset raises _Cannot (the rule then reports "not recognised").
+
+
+_CACHED_PROPS = {"functools.cached_property", "cached_property"}
+
+
+def _is_property(fn):
+    """the method is read as an attribute: @property or a cached property (computed on first access, then kept)"""
+    return bool({dotted(d.func if isinstance(d, ast.Call) else d) for d in fn.decorator_list} & ({"property"} | _CACHED_PROPS))
 
 
 class _Cannot(Exception):
@@ -652,7 +766,10 @@ class _Machine:
                 fn, owner = self._member(v.cls, name)
                 if fn is not None:
                     decos = self._decos(fn)
-                    if "property" in decos or "functools.cached_property" in decos or "cached_property" in decos:
+                    if decos & _CACHED_PROPS:  # computed on the first read and kept in the instance from then on (the caching is part of what is interpreted)
+                        v.fields[name] = self.call_function(fn, [v], {}, owner)
+                        return v.fields[name]
+                    if "property" in decos:
                         return self.call_function(fn, [v], {}, owner)
                     return _Bound(v, fn, owner)
                 for c in self._mro(v.cls):  # class-level constants
@@ -1026,16 +1143,14 @@ def _closure_in_module(mod, fn, properties=False):
                 todo.append(meths[n.func.attr])
             elif isinstance(n, ast.Call) and isinstance(n.func, ast.Name) and n.func.id in funcs:
                 todo.append(funcs[n.func.id])
-            elif properties and is_self_attr(n) and n.attr in meths and "property" in {dotted(d) for d in meths[n.attr].decorator_list}:
+            elif properties and is_self_attr(n) and n.attr in meths and _is_property(meths[n.attr]):
                 todo.append(meths[n.attr])
     return seen
 
 
-def allocation_matrix_rule(chk, rid, drv):
-    """O1.1 on values. The matrix builder (located by role: the outermost function of the driver module whose call closure constructs both JoinPoint and TaskAllocation) is interpreted,
-    together with the helper methods / properties of its class it calls, on representative model schedules; the obligations are read off the matrices it returns. No shape of the
-    loops, of the row container or of the id counter is assumed; whatever cannot be interpreted is reported as not recognised."""
-    JP, TA = drv.cls("JoinPoint"), drv.cls("TaskAllocation")
+def _matrix_builder(drv):
+    """(class, method, read as an attribute?) of the matrix builder, located by role: the one outermost parameterless method of the driver module whose call closure constructs both
+    JoinPoint and TaskAllocation"""
     both = ("JoinPoint", "TaskAllocation")
     owners = [c for c in drv.classes() if set(both) <= set().union(*[_constructs(f, both) for f in drv.methods(c).values()] or [set()])]
     cands = [f for c in owners for f in drv.methods(c).values() if params_of(f) == ["self"]
@@ -1045,9 +1160,17 @@ def allocation_matrix_rule(chk, rid, drv):
         raise AnchorMissing("matrix builder (the one outermost parameterless method whose call closure constructs both JoinPoint and TaskAllocation)")
     builder = outer[0]
     A = source.enclosing_class(builder)
-    is_prop = "property" in {dotted(d) for d in builder.decorator_list}
     if [p for p in params_of(builder) if p != "self"]:
         raise AnchorMissing(f"{A.name}.{builder.name}: a matrix builder that takes nothing but the schedule its object was constructed with")
+    return A, builder, _is_property(builder)  # read as an attribute (plain or cached property) or called
+
+
+def allocation_matrix_rule(chk, rid, drv):
+    """O1.1 on values. The matrix builder (located by role: the outermost function of the driver module whose call closure constructs both JoinPoint and TaskAllocation) is interpreted,
+    together with the helper methods / properties of its class it calls, on representative model schedules; the obligations are read off the matrices it returns. No shape of the
+    loops, of the row container or of the id counter is assumed; whatever cannot be interpreted is reported as not recognised."""
+    JP, TA = drv.cls("JoinPoint"), drv.cls("TaskAllocation")
+    A, builder, is_prop = _matrix_builder(drv)
     # the identity of a join point across processes: the attributes its __eq__ / __hash__ read
     ident = sorted({n.attr for nm in ("__eq__", "__hash__") for m in [drv.methods(JP).get(nm)] if m is not None for n in walk_body(m) if is_self_attr(n)})
 
@@ -1606,6 +1729,250 @@ def _arrival_roles(repo, drv, jr, jr_calls):
     return roles
 
 
+def _ctor_params(drv, cls):
+    """what a class of the module is constructed with: the parameters of its (inherited) __init__, or the annotated fields of a @dataclass, in order; None when neither exists"""
+    for c in _Machine(drv)._mro(cls):
+        init = drv.methods(c).get("__init__")
+        if init is not None:
+            return [p for p in params_of(init)[1:]]
+    if {"dataclass", "dataclasses.dataclass"} & {dotted(d.func if isinstance(d, ast.Call) else d) for d in cls.decorator_list}:
+        return [st.target.id for c in reversed(_Machine(drv)._mro(cls)) for st in c.body if isinstance(st, ast.AnnAssign) and isinstance(st.target, ast.Name)]
+    return None
+
+
+def _row_view_model(drv):
+    """(machine, row view object, model rows, is_joinpoint, tasks): a ClientAllocations object of the analysed module, filled through its own adder method with the rows of two
+    clients - client 7: (JP, task, task, JP), client 9: (JP, None, JP, JP) - built from interpreted JoinPoint / TaskAllocation instances. Whatever container the view keeps its
+    rows in (dicts, tuples, records) is its own business: the rules only call its methods on the model."""
+    cached = getattr(drv, "_c01_row_view_model", None)
+    if cached is not None:
+        return cached
+    CA = drv.cls("ClientAllocations")
+    ij = drv.methods(CA).get("is_joinpoint")
+    tk = drv.methods(CA).get("tasks")
+    adders = [f for f in drv.methods(CA).values() if len(params_of(f)) == 3 and f.name not in ("tasks", "is_joinpoint", "__init__")]
+    if ij is None or tk is None or len(adders) != 1:
+        raise AnchorMissing("ClientAllocations.is_joinpoint / tasks / the method that adds a client's row")
+    m2 = _Machine(drv)
+    JPc, TAc = drv.cls("JoinPoint"), drv.cls("TaskAllocation")
+    j0, j1 = m2.new(JPc, [0]), m2.new(JPc, [1])
+    ta_params = _ctor_params(drv, TAc)
+    if ta_params is None:
+        raise AnchorMissing("what TaskAllocation is constructed with (an __init__ or the fields of a dataclass)")
+    ta0, ta1 = (m2.new(TAc, [_Opaque(f"arg{i}") for i in range(len(ta_params))]) for _ in range(2))
+    rows = {7: [j0, ta0, ta1, j1], 9: [j0, None, j1, j1]}
+    view = m2.new(CA)
+    for cid, row in rows.items():
+        m2.apply(m2.getattr(view, adders[0].name), [cid, row], {})
+    drv._c01_row_view_model = (m2, view, rows, ij, tk)
+    return drv._c01_row_view_model
+
+
+def _adapter_on_values(drv, repo, wcls, w_sampler, w_cancel, w_done):
+    """O1.10 (executor adapter) on VALUES. The adapter's run routine (private helpers inlined) is interpreted up to its asyncio.gather(...) on a model row that the module's own
+    allocator and row view produce for the parallel element (task a: 2 clients, task b: 1 client) on the clients 3, 5, 8; the adapter object is built by its own constructor from
+    tokens that stand for the worker attributes handed over at the worker's construction site (roles by data flow: parameter <- argument <- `self.<attr>` of the worker; the row is
+    the argument that comes from current_tasks_and_advance()). track.operation_parameters(...) and schedule_for(...) return records of what they were called with; calling an executor
+    object gives a record of the object (the coroutine that is awaited). Conditions on configuration are tried both ways. What is read off the values handed to gather():
+      executors   one awaited coroutine per (client, allocation) of the row, each from its own AsyncExecutor
+      wiring      the executor of client c was constructed with c, the task of c's allocation, and keeps the worker's sampler / events under the attributes it adds samples to / sets / polls
+      schedule    its schedule was computed from c's allocation and a parameter source created for c's task
+      params      one parameter source per task: clients of the same task share it
+      gather      one gather, awaited, over all of them
+    Returns {name: (ok, detail)}; raises _Cannot when some part is outside the interpreted subset (the caller then falls back to the syntactic form of the same obligations)."""
+    AD, EXc, CA = drv.cls("AsyncIoAdapter"), drv.cls("AsyncExecutor"), drv.cls("ClientAllocations")
+    arun, ainit, einit, xcall = drv.methods(AD).get("run"), drv.methods(AD).get("__init__"), drv.methods(EXc).get("__init__"), drv.methods(EXc).get("__call__")
+    if arun is None or ainit is None or einit is None or xcall is None:
+        raise _Cannot("AsyncIoAdapter.run / __init__, AsyncExecutor.__init__ / __call__")
+    arun = _expand(arun, repo)
+    xcall = _expand(xcall, repo)
+    ga = [n for n in walk_body(arun) if isinstance(n, ast.Call) and dotted(n.func) == "asyncio.gather"]
+    if len(ga) != 1:
+        raise _Cannot(f"{len(ga)} asyncio.gather(...) calls in AsyncIoAdapter.run")
+    # roles of the executor's attributes by use: samples are added to it / it is set / it is polled
+    xdefs = local_defs(xcall)
+
+    def _attrs_with(meth):
+        out = set()
+        for c in source.calls_in(xcall):
+            f = source.inline_node(c.func, xdefs)
+            if isinstance(f, ast.Attribute) and f.attr == meth and is_self_attr(f.value):
+                out.add(f.value.attr)
+        return out
+
+    x_sampler, x_set, x_polled = _attrs_with("add"), _attrs_with("set"), _attrs_with("is_set")
+    if len(x_sampler) != 1 or not x_set or not x_polled:
+        raise _Cannot("the executor attributes samples are added to / that are set / polled in AsyncExecutor.__call__")
+    # the worker's construction site of the adapter: parameter -> worker attribute; the row parameter
+    sites = [c for c in _calls_named(repo, drv, "AsyncIoAdapter") if source.enclosing_class(c) is wcls]
+    if len(sites) != 1:
+        raise _Cannot(f"{len(sites)} construction sites of AsyncIoAdapter in the worker")
+    wfn = source.enclosing_func(sites[0])
+    bound = source.bind_args(sites[0], ainit)
+    tokens, row_params = {}, []
+    for p_ in [x for x in params_of(ainit) if x != "self"]:
+        a_ = bound.get(p_)
+        if a_ is not None and is_self_attr(a_):
+            tokens[p_] = _Opaque(f"worker.{a_.attr}")
+        elif isinstance(a_, ast.Name) and wfn is not None:
+            srcs = [n.value for n in walk_body(wfn) if isinstance(n, ast.Assign) and any(isinstance(t, ast.Name) and t.id == a_.id for t in n.targets)]
+            if srcs and all(isinstance(v, ast.Call) and last_attr(v.func) == "current_tasks_and_advance" for v in srcs):
+                row_params.append(p_)
+            else:
+                tokens[p_] = _Opaque(f"argument {p_}")
+        else:
+            tokens[p_] = _Opaque(f"argument {p_}")
+    if len(row_params) != 1:
+        raise _Cannot("the adapter parameter that receives the worker's current row (the result of current_tasks_and_advance())")
+    by_attr = {t.what.split(".", 1)[1]: t for t in tokens.values() if t.what.startswith("worker.")}
+    if not {w_sampler, w_cancel, w_done} <= set(by_attr):
+        raise _Cannot(f"the worker attributes {sorted({w_sampler, w_cancel, w_done} - set(by_attr))} are not handed to the adapter as such")
+    A, builder, is_prop = _matrix_builder(drv)
+    tk = drv.methods(CA).get("tasks")
+    adders = [f for f in drv.methods(CA).values() if len(params_of(f)) == 3 and f.name not in ("tasks", "is_joinpoint", "__init__")]
+    if tk is None or len(adders) != 1:
+        raise _Cannot("ClientAllocations.tasks / the method that adds a client's row")
+    verdicts = {}
+
+    def note(name, ok, detail):
+        if name not in verdicts or (verdicts[name][0] and not ok):
+            verdicts[name] = (ok, detail)
+
+    for choice in (False, True):
+        created, scheds = [], []
+
+        def hook(d, args, kwargs, created=created, scheds=scheds):
+            nm = d.split(".")[-1]
+            if nm == "operation_parameters":
+                created.append(_Obj(None, _label=f"parameter source #{len(created)}", args=list(args) + list(kwargs.values())))
+                return created[-1]
+            if nm == "schedule_for":
+                scheds.append(_Obj(None, _label=f"schedule #{len(scheds)}", args=list(args) + list(kwargs.values())))
+                return scheds[-1]
+            return NotImplemented
+
+        class _M(_Machine):
+            def apply(self, callee, args, kwargs, e=None):
+                if isinstance(callee, _Obj) and callee.cls is not None and self._member(callee.cls, "__call__")[0] is not None:
+                    return _Obj(None, _label="coroutine", target=callee)
+                return super().apply(callee, args, kwargs, e)
+
+        m = _M(drv, call_hook=hook, choose=lambda node, choice=choice: choice)
+        la, lb = _leaf("a", 2), _leaf("b", 1)
+        alloc = m.new(A, [[_par("p", [la, lb])]])
+        M = m.getattr(alloc, builder.name) if is_prop else m.apply(m.getattr(alloc, builder.name), [], {})
+        if not (isinstance(M, (list, tuple)) and len(M) == 3 and all(isinstance(r, (list, tuple)) for r in M)):
+            raise _Cannot("the allocation matrix of par(a x2, b x1) is not three rows")
+        TAc = drv.cls("TaskAllocation")
+        idx = [i for i in range(len(M[0])) if all(isinstance(r[i], _Obj) and r[i].cls is TAc for r in M)]
+        if len(idx) != 1:
+            raise _Cannot("the column of par(a x2, b x1) in the allocation matrix")
+        cids = (3, 5, 8)
+        view = m.new(CA)
+        for cid, r in zip(cids, M):
+            m.apply(m.getattr(view, adders[0].name), [cid, list(r)], {})
+        row = m.apply(m.getattr(view, tk.name), [idx[0]], {})
+        want = []
+        for cid, r in zip(cids, M):
+            ta = r[idx[0]]
+            leaf = [lf for lf in (la, lb) if any(v is lf for v in ta.fields.values())]
+            if len(leaf) != 1:
+                raise _Cannot("the task of a model TaskAllocation")
+            want.append((cid, ta, leaf[0]))
+        ad = m.new(AD, [], dict(tokens, **{row_params[0]: row}))
+        env = {"self": ad}
+        state = {"gathered": None}
+
+        def run_block(stmts):
+            for st in stmts:
+                if any(x is ga[0] for x in ast.walk(st)):
+                    if isinstance(st, ast.Try):
+                        return run_block(st.body)
+                    out = []
+                    for x in ga[0].args:
+                        if isinstance(x, ast.Starred):
+                            out.extend(m._iter(m.ev(x.value, env), x))
+                        else:
+                            out.append(m.ev(x, env))
+                    state["gathered"] = out
+                    return True
+                if isinstance(st, source.FUNC_TYPES):
+                    continue  # a nested function (client factory ...): calls of it give an opaque value
+                m.stmt(st, env)
+            return False
+
+        try:
+            if not run_block(arun.body):
+                raise _Cannot("asyncio.gather(...) is not reached by interpreting the statements of AsyncIoAdapter.run in order")
+        except (_Ret, _Brk, _Cont):
+            raise _Cannot("AsyncIoAdapter.run leaves before asyncio.gather(...)")
+        gathered = state["gathered"]
+
+        def executor_of(aw):
+            t = aw.fields.get("target") if isinstance(aw, _Obj) and aw.fields.get("_label") == "coroutine" else None
+            for _ in range(3):  # through wrappers that are handed the executor (profiler)
+                if not isinstance(t, _Obj) or t.cls is EXc:
+                    break
+                inner = [v for v in t.fields.values() if isinstance(v, _Obj) and v.cls is not None and m._member(v.cls, "__call__")[0] is not None]
+                t = inner[0] if len(inner) == 1 else None
+            return t if isinstance(t, _Obj) and t.cls is EXc else None
+
+        how = f" (conditions on configuration taken as {choice})"
+        exs = [executor_of(aw) for aw in gathered]
+        distinct = all(x is not None for x in exs) and all(a_ is not b_ for i, a_ in enumerate(exs) for b_ in exs[i + 1:])
+        note("executors", distinct and len(exs) == len(want), f"row of {len(want)} (client, allocation) pairs: {len(gathered)} awaited, {sum(1 for x in exs if x is not None)} of them coroutines of an executor"
+             + ("" if distinct or not all(x is not None for x in exs) else ", one executor awaited twice") + how)
+        wiring, schedule, shared = [], [], {}
+        for cid, ta, leaf in want:
+            mine = [x for x in exs if x is not None and any(isinstance(v, int) and not isinstance(v, bool) and v == cid for v in x.init_args.values())]
+            if len(mine) != 1:
+                wiring.append(f"client {cid}: {len(mine)} executor(s) constructed with its id")
+                continue
+            x = mine[0]
+            vals = list(x.init_args.values())
+            if not any(v is leaf for v in vals):
+                wiring.append(f"client {cid}: its executor is not constructed with the task of its allocation ({leaf!r})")
+            samp = x.fields.get(next(iter(x_sampler)))
+            if samp is not by_attr[w_sampler]:
+                wiring.append(f"client {cid}: samples are added to {samp!r}, not to the worker's self.{w_sampler}")
+            for a_ in sorted(x_set):
+                if x.fields.get(a_) is not by_attr[w_done]:
+                    wiring.append(f"client {cid}: the event it sets (self.{a_}) is {x.fields.get(a_)!r}, not the worker's self.{w_done}")
+            polled = {id(x.fields.get(a_)) for a_ in x_polled}
+            if polled != {id(by_attr[w_cancel]), id(by_attr[w_done])}:
+                wiring.append(f"client {cid}: the events it polls are {[repr(x.fields.get(a_)) for a_ in sorted(x_polled)]}, not the worker's self.{w_cancel} and self.{w_done}")
+            ss = [v for v in vals if any(v is s_ for s_ in scheds)]
+            if len(ss) != 1:
+                schedule.append(f"client {cid}: {len(ss)} schedule(s) handed to its executor")
+                continue
+            ps = [v for v in ss[0].fields["args"] if any(v is c_ for c_ in created)]
+            if not any(v is ta for v in ss[0].fields["args"]):
+                schedule.append(f"client {cid}: its schedule is not computed from its own allocation")
+            if len(ps) != 1 or not any(v is leaf for v in ps[0].fields["args"]):
+                schedule.append(f"client {cid}: its schedule is not computed with a parameter source created for its task")
+            else:
+                shared.setdefault(id(leaf), []).append(ps[0])
+        note("wiring", not wiring, (wiring[0] if wiring else f"clients {list(cids)}: own id, own task, worker's sampler / cancel / complete") + how)
+        note("schedule", not schedule, (schedule[0] if schedule else "schedule_for(own allocation, parameter source of own task)") + how)
+        one_per_task = len(created) == 2 and all(all(p_ is ps[0] for p_ in ps) for ps in shared.values())
+        note("params", one_per_task and not schedule, f"{len(created)} parameter source(s) created for 2 tasks on 3 clients" + ("" if one_per_task else ": not one per task") + how)
+        note("gather", isinstance(source.parent(ga[0]), ast.Await) and distinct and len(exs) == len(want), "gather(...) " + ("is" if isinstance(source.parent(ga[0]), ast.Await) else "is NOT") + f" awaited, over {len(gathered)} of {len(want)}" + how)
+    return verdicts, arun, ga[0]
+
+
+class _AlreadyDecided(Exception):
+    """leaves a rule section whose obligations were decided by a stronger method before"""
+
+
+def _worker_sampler_attr(wm):
+    """the worker attribute that holds Sampler(...) (None when there is not exactly one)"""
+    c = sorted({n.targets[0].attr for m in wm.values() for n in walk_body(m) if isinstance(n, ast.Assign) and len(n.targets) == 1 and is_self_attr(n.targets[0])
+                and isinstance(n.value, ast.Call) and last_attr(n.value.func) == "Sampler"})
+    if len(c) != 1:
+        raise _Cannot("the worker attribute that holds Sampler(...)")
+    return c[0]
+
+
 class _Section:
     """one rule section of run(): an anchor that cannot be located makes THIS rule inconclusive and lets the remaining rules be evaluated (a later rule that needs a role located
     by a skipped section is inconclusive too); a defect in one part of the protocol is still reported when another part has an unknown shape."""
@@ -1619,6 +1986,8 @@ class _Section:
     def __exit__(self, et, ev, tb):
         if et is None:
             return False
+        if issubclass(et, _AlreadyDecided):
+            return True
         if issubclass(et, AnchorMissing):
             self.chk.inconclusive.append(f"anchor missing: {ev}")
             return True
@@ -1963,7 +2332,11 @@ def run(chk):
             chk.ob("O1.3", "arrival counter and per-step map reset before any message is sent", ok, resets[0] if resets else jr, f"{len(resets)} reset(s), {len(msg_calls)} sending call(s)")
         # the local copy handed to move_to_next_task is taken before the reset
         for x in mv_calls:
-            a = x.args[0] if x.args else None
+            mvp = [p_ for p_ in params_of(mv) if p_ != "self"]
+            a = source.bind_args(x, mv).get(mvp[0]) if mvp else None  # positional or by keyword
+            if a is None:
+                chk.unknown("O1.3", "what move_to_next_task is called with cannot be matched to its parameter (shape not recognised)", x)
+                continue
             ok = isinstance(a, ast.Name) and a.id in local_defs(jr) and is_self_attr(source.inline_node(a, local_defs(jr), no_calls=True), stepmap)
             chk.ob("O1.3", "the closed step's arrival map is handed to move_to_next_task", bool(ok), x, short(x, 60))
 
@@ -2233,6 +2606,15 @@ def run(chk):
                                ("cancel event cleared", lambda n: isinstance(n, ast.Call) and last_attr(n.func) == "clear" and _recv(n, wdefs) == f"self.{w_cancel}"),
                                ("complete event cleared", lambda n: isinstance(n, ast.Call) and last_attr(n.func) == "clear" and _recv(n, wdefs) == f"self.{w_done}")):
                 xs = [n for n in walk_body(wd) if pred(n)]
+                if not xs and "cleared" in what:
+                    # the event may be cleared through another spelling (a loop over both events, a helper that is handed the event ...): a clear() whose receiver does not resolve to
+                    # an attribute of the worker, in front of the message, is a shape this rule does not judge
+                    other_ = [n for n in walk_body(wd) if isinstance(n, ast.Call) and last_attr(n.func) == "clear" and not (_recv(n, wdefs) or "").startswith("self.")
+                              and gwd.dominated_by_nodes(sn, [gwd.node_of(n)])]
+                    if other_:
+                        chk.unknown("O1.5", f"{what}: no self.<event>.clear() for it, but `{short(other_[0], 50)}` clears something that is not written as an attribute of the worker "
+                                            "(shape not recognised)", other_[0])
+                        continue
                 ok = bool(xs) and gwd.dominated_by_nodes(sn, [gwd.node_of(x) for x in xs])
                 chk.ob("O1.5", f"{what} before JoinPointReached", ok, xs[0] if xs else send, "")
 
@@ -2255,26 +2637,51 @@ def run(chk):
             raise AnchorMissing("AsyncExecutor.__call__ / Worker.receiveMsg_CompleteCurrentTask")
         ex_call = _expand(ex_call, repo)
         edefs = local_defs(ex_call)
+        reach_ = {id(f) for f in _closure_in_module(drv, _origin(ex_call)) + _closure_in_module(drv, _origin(hct))}
         for s in sets:
             if not (_within(s, hct) or _within(s, ex_call)):  # the handler is decided below as a truth table over (at join point, Drive pending), the executor right here
+                if id(source.enclosing_func(s)) in reach_:
+                    chk.unknown("O1.6", f"complete.set() in {source.qualname(s)}, a helper of the two sanctioned places that could not be analysed in place (shape not recognised)", s)
+                    continue
                 chk.ob("O1.6", f"complete.set() in {source.qualname(s)}", False, s, "set site outside the two sanctioned places")
         ex_sets = [n for n in walk_body(ex_call) if _on_event(n, "set") and _recv(n, edefs) == f"self.{x_done}"]
+        # decided on VALUES: the conditions on the way to each set site (whatever their boolean structure: if / elif chain, one merged `a or b` test, guard clauses, locals,
+        # private helpers) are extracted and evaluated for the executor of a task that completes nothing, of the task named by completed-by, and of a task of a
+        # `completed-by: any` element; polls of the request events are free inputs
+        try:
+            x_events = set(request_events(repo, drv))
+        except AnchorMissing:
+            x_events = set()
+        x_events |= {x_done}
+        CAUSES = {"self.task.completes_parent": (True, False), "self.task.any_completes_parent": (False, True)}
+        on_cause = {}
         for s in ex_sets:
             in_finally = any(isinstance(a, ast.Try) and any(s in list(ast.walk(fb)) for fb in a.finalbody) for a in source.ancestors(s))
-            # positive guard facts (either arm of the written test), locals resolved to what they were assigned from
-            names = [inline(f_, edefs) for f_ in _pat.fact_nodes(s) if isinstance(f_, (ast.Name, ast.Attribute))]
-            ok = in_finally and any(x in ("self.task.completes_parent", "self.task.any_completes_parent") for x in names)
-            chk.ob("O1.6", "executor: complete.set() only for a task that completes its parent", ok, s, f"in finally={in_finally}, cause={names}")
+            plain, open_ = _executed_on(s, ex_call, edefs, _task_env(False, False), x_events)
+            on_cause[id(s)] = {c: _executed_on(s, ex_call, edefs, _task_env(*fl), x_events) for c, fl in CAUSES.items()}
+            names = [c.split(".")[-1] for c, (st_, _) in on_cause[id(s)].items() if st_ != "no"]
+            on_cause[id(s)]["plain"] = plain
+            if in_finally and plain == "open":
+                chk.unknown("O1.6", f"executor: `{u(s)}` is controlled by {open_}, which cannot be evaluated for a task that completes nothing (shape not recognised)", s)
+                continue
+            ok = in_finally and plain == "no"
+            chk.ob("O1.6", "executor: complete.set() only for a task that completes its parent", ok, s, f"in finally={in_finally}, executed for a task with {names or 'neither flag'}; "
+                   f"for a task without completes_parent / any_completes_parent: {plain}")
 
         # both causes must be signalled by the executor (several clients of one worker share the event: a finished completing client must end its siblings)
-        for cause in ("self.task.completes_parent", "self.task.any_completes_parent"):
-            have = False
-            for s_ in ex_sets:
-                for f_ in _pat.fact_nodes(s_):
-                    if isinstance(f_, (ast.Name, ast.Attribute)) and cause in (inline(f_, edefs), u(f_)):
-                        have = True
+        for cause in CAUSES:
+            sts = [(on_cause[id(s_)][cause], on_cause[id(s_)]["plain"]) for s_ in ex_sets if id(s_) in on_cause]
+            sure = any(st_ == "yes" for (st_, _), _ in sts)
+            # executed under further conditions that have no representative value, but never without the flag: the flag is what makes the difference
+            cond = [o_ for (st_, o_), plain_ in sts if st_ == "open" and plain_ == "no"]
+            unsure = [o_ for (st_, o_), plain_ in sts if st_ == "open" and plain_ != "no"]
+            if not sure and not cond and unsure:
+                chk.unknown("O1.6", f"executor: whether complete.set() is executed when {cause.split('.')[-1]} depends on {unsure[0]}, which cannot be evaluated (shape not recognised)", ex_call)
+                continue
+            have = sure or bool(cond)
             chk.ob("O1.6", f"executor signals completion when {cause.split('.')[-1]}", have, ex_call,
-                   "complete.set() in the finally under this cause" if have else "no complete.set() for this cause: sibling clients in the same worker keep running, no worker reaches the join point, the race hangs",
+                   ("complete.set() in the finally is executed for this cause" + ("" if sure else f" (under further conditions {cond[0]})")) if have else
+                   "no complete.set() for this cause: sibling clients in the same worker keep running, no worker reaches the join point, the race hangs",
                    key=f"{_D}:AsyncExecutor.__call__:cause:{cause}")
 
         complete_read_exemption_rule(chk, "O1.6", drv)
@@ -2427,7 +2834,15 @@ def run(chk):
         resets = [n for n in walk_body(wk) if isinstance(n, ast.Assign) and any(is_self_attr(x, w_pending) for x in n.targets) and source.is_const(n.value, False) and _sd(n)]
         drives = [n for n in walk_body(wk) if isinstance(n, ast.Call) and u(n.func) == "self.drive" and _sd(n)]
         ok = bool(resets) and bool(drives)
-        chk.ob("O1.7", "Drive -> start_driving -> wake-up -> drive() hand-over", ok, sd_tests[0] if sd_tests else wk, "flag consumed (reset) and drive() called" if ok else "start_driving is not consumed/reset before driving")
+        # the flag may be consumed by another kind of store (a tuple assignment that reads and clears it at once, a helper that is handed the worker ...): not judged here
+        other_w = [n for n in walk_body(wk) if isinstance(n, (ast.Assign, ast.AugAssign, ast.AnnAssign, ast.Delete)) and not any(n is r_ for r_ in resets)
+                   and any(is_self_attr(x, w_pending) and isinstance(x.ctx, (ast.Store, ast.Del)) for x in ast.walk(n))
+                   and not (isinstance(n, ast.Assign) and len(n.targets) == 1 and is_self_attr(n.targets[0], w_pending) and isinstance(n.value, ast.Constant))]
+        if not resets and other_w:
+            chk.unknown("O1.7", f"the wake-up handler writes self.{w_pending} through `{short(other_w[0], 60)}` (hand-over shape not recognised)", other_w[0])
+        else:
+            chk.ob("O1.7", "Drive -> start_driving -> wake-up -> drive() hand-over", ok, sd_tests[0] if sd_tests else wk,
+                   "flag consumed (reset) and drive() called" if ok else "start_driving is not consumed/reset before driving")
         dr = wm["receiveMsg_Drive"]
         ok = any(isinstance(n, ast.Assign) and any(is_self_attr(x, w_pending) for x in n.targets) and source.is_const(n.value, True) for n in walk_body(dr))
         chk.ob("O1.7", "Drive handler sets start_driving", ok, dr, "")
@@ -2497,22 +2912,7 @@ def run(chk):
             bad = [w for w in ws if not (isinstance(w, ast.Assign) and source.is_const(w.value, 0) and source.enclosing_func(w).name == "receiveMsg_StartWorker")]
             chk.ob("O1.9", f"no other writer of {attr}", not bad, bad[0] if bad else wm.get(ca0.name, ca0), f"{len(ws)} other store(s)")
         # the row view on a model matrix of two clients: (join point, join point) / (task, None) / (task, join point)
-        ij = drv.methods(CA).get("is_joinpoint")
-        tk = drv.methods(CA).get("tasks")
-        adders = [f for f in drv.methods(CA).values() if len(params_of(f)) == 3 and f.name not in ("tasks", "is_joinpoint", "__init__")]
-        if ij is None or tk is None or len(adders) != 1:
-            raise AnchorMissing("ClientAllocations.is_joinpoint / tasks / the method that adds a client's row")
-        m2 = _Machine(drv)
-        JPc, TAc = drv.cls("JoinPoint"), drv.cls("TaskAllocation")
-        j0, j1 = m2.new(JPc, [0]), m2.new(JPc, [1])
-        if drv.methods(TAc).get("__init__") is None:
-            raise AnchorMissing("TaskAllocation.__init__")
-        t_args = [_Opaque(f"arg{i}") for i in range(len([p for p in params_of(drv.methods(TAc)["__init__"]) if p != "self"]))]
-        ta0, ta1 = m2.new(TAc, list(t_args)), m2.new(TAc, list(t_args))
-        rows = {7: [j0, ta0, ta1, j1], 9: [j0, None, j1, j1]}
-        view = m2.new(CA)
-        for cid, row in rows.items():
-            m2.apply(m2.getattr(view, adders[0].name), [cid, row], {})
+        m2, view, rows, ij, tk = _row_view_model(drv)
         jp_is = [bool(m2.apply(m2.getattr(view, ij.name), [i], {})) for i in range(4)]
         ok = jp_is == [True, False, False, True]
         chk.ob("O1.9", "is_joinpoint: all entries are join points", ok, ij, f"rows (JP, JP), (task, None), (task, JP), (JP, JP) -> {jp_is}" + ("" if ok else ": a row that still holds a task is taken for a join point (or a join point is not recognised)"))
@@ -2522,6 +2922,7 @@ def run(chk):
              "of the row, unconditionally, and awaits all of them; one parameter source per task", 6,
              "a client's allocation is dropped (task runs with fewer clients) or started twice; a failed/late client is not awaited before the join point")
     with _Section(chk, "O1.10"):
+        m2, view, rows, ij, tk = _row_view_model(drv)  # the model of O1.9 (built once per module); located here again so that this rule does not depend on O1.9 having got that far
         matrix_objs = [x for r in rows.values() for x in r if x is not None]
 
         def _pairs(i):
@@ -2544,7 +2945,24 @@ def run(chk):
                 bad.append((i, [(c_, repr(x)) for c_, x in got_], [(c_, repr(x)) for c_, x in want_]))
         chk.ob("O1.10", "row view: (client id, its own entry) for every non-empty entry", not bad, tk, "clients 7 / 9 over four rows with join points, tasks and a None entry"
                + ("" if not bad else f": (index, returned, expected) {bad[0]}"))
+    on_values = None
     with _Section(chk, "O1.10"):
+        try:
+            on_values = _adapter_on_values(drv, repo, W.node, _worker_sampler_attr(wm), w_cancel, w_done)
+        except (_Cannot, _Raised, AnchorMissing) as x:
+            on_values = None  # outside the interpreted subset: the same obligations in their syntactic form below
+        if on_values is not None:
+            verdicts, arun_x, gnode = on_values
+            xsite = ([n for n in walk_body(arun_x) if isinstance(n, ast.Call) and last_attr(n.func) == "AsyncExecutor"] or [arun_x])[0]
+            for nm_, text_, node_ in (("executors", "one executor per allocation of the row, unconditionally", xsite),
+                                      ("wiring", "executor gets this client's id, this allocation's task and the worker's shared sampler / cancel / complete", xsite),
+                                      ("schedule", "schedule computed for this allocation with the task's (shared) parameter source", xsite),
+                                      ("params", "one parameter source per task (created on first sight only)", xsite),
+                                      ("gather", "all executors of the row are awaited together", gnode)):
+                chk.ob("O1.10", text_, verdicts[nm_][0], node_, "on values: " + verdicts[nm_][1], key=f"{_D}:AsyncIoAdapter.run:{nm_}")
+    with _Section(chk, "O1.10"):
+        if on_values is not None:
+            raise _AlreadyDecided()
         AD = drv.cls("AsyncIoAdapter")
         arun = drv.methods(AD).get("run")
         einit = drv.methods(drv.cls("AsyncExecutor")).get("__init__")
@@ -2794,4 +3212,83 @@ VARIANTS += [
     V("h2 keep: finished() held in a local", "keep", _D, "            if self.finished():\n                self.telemetry.on_benchmark_stop()", "            all_done = self.finished()\n            if all_done:\n                self.telemetry.on_benchmark_stop()"),
     V("h2 break: finished() evaluated before the step is counted", "break", _D, "            self.update_progress_message(task_finished=True)\n            # clear per step\n",
       "            self.update_progress_message(task_finished=True)\n            all_done = self.finished()\n            # clear per step\n", "O1.3"),
+]
+
+# ---- hardening round 3: merged / re-spelled conditions decided on values (O1.6), cached properties (O1.1), record types for the row view and the matrix cells (O1.9 / O1.10) --------
+_FIN_OLD = ("            if task_completes_parent:\n                self.logger.info(\n"
+            "                    \"Task [%s] completes parent. Client id [%s] is finished executing it and signals completion.\",\n"
+            "                    self.task,\n                    self.client_id,\n                )\n                self.complete.set()\n"
+            "            elif any_task_completes_parent:\n                self.logger.info(\n"
+            "                    \"Task [%s] completes parent. Client id [%s] is finished executing it and signals completion of all \"\n"
+            "                    \"remaining clients, immediately.\",\n                    self.task,\n                    self.client_id,\n                )\n                self.complete.set()\n")
+_FIN_NEW = ("            if task_completes_parent or any_task_completes_parent:\n                self.logger.info(\"Task [%s] completes parent. Client id [%s] signals completion.\", self.task, self.client_id)\n"
+            "                self.complete.set()\n")
+_CMP_OLD = "                if task_completes_parent:\n                    completed = runner.completed\n                else:\n" + _POLL_OLD
+_XCALL_AT = "    async def __call__(self, *args, **kwargs):\n        any_task_completes_parent = self.task.any_completes_parent\n"
+_ALLOC_DECO = "    @property\n    def allocations(self):\n"
+_JPS_AT = "    @property\n    def join_points(self):\n"
+_ROW_NEW = "        allocations = [None] * max_clients\n        for client_index in range(max_clients):\n            allocations[client_index] = self._new_row\n        join_point_id = 0\n"
+_ADD_OLD = "        self.allocations.append({\"client_id\": client_id, \"tasks\": tasks})\n"
+_CT_AT = "class ClientAllocations:\n"
+_CT_DEF = "ClientTasks = collections.namedtuple(\"ClientTasks\", [\"client_id\", \"tasks\"])\n\n\n"
+_VIEW_NT = ("        current_tasks = []\n        for client_id, tasks in self.allocations:\n            tasks_at_index = tasks[task_index]\n"
+            "            if remove_empty and tasks_at_index is not None:\n                current_tasks.append(ClientAllocation(client_id, tasks_at_index))\n        return current_tasks\n")
+_TA_INIT = ("class TaskAllocation:\n    def __init__(self, task, client_index_in_task, global_client_index, total_clients):\n        \"\"\"\n\n"
+            "        :param task: The current task which is always a leaf task.\n        :param client_index_in_task: The task-specific index for the allocated client.\n"
+            "        :param global_client_index:  The globally unique index for the allocated client across\n                                     all concurrently executed tasks.\n"
+            "        :param total_clients: The total number of clients executing tasks concurrently.\n        \"\"\"\n        self.task = task\n"
+            "        self.client_index_in_task = client_index_in_task\n        self.global_client_index = global_client_index\n        self.total_clients = total_clients\n")
+_TA_DC = ("@dataclass(eq=False, repr=False)\nclass TaskAllocation:\n    task: track.Task\n    client_index_in_task: int\n    global_client_index: int\n    total_clients: int\n")
+
+VARIANTS += [
+    # O1.6 executor side on values
+    V("h3 keep (C01-b6): the two causes merged into one `or` test in the finally", "keep", _D, _FIN_OLD, _FIN_NEW),
+    V("h3 break: merged test with `and` (no task ever signals)", "break", _D, _FIN_OLD, _FIN_NEW.replace("task_completes_parent or any_task_completes_parent", "task_completes_parent and any_task_completes_parent"), "O1.6"),
+    V("h3 break: merged test lets a task that completes nothing signal", "break", _D, _FIN_OLD, _FIN_NEW.replace("task_completes_parent or any_task_completes_parent", "task_completes_parent or not any_task_completes_parent"), "O1.6"),
+    V("h3 keep: the causes tested through one local and a guard clause in the finally", "keep", _D, _FIN_OLD,
+      "            signals = any((task_completes_parent, any_task_completes_parent))\n            if signals:\n                self.complete.set()\n"),
+    V("h3 keep (C01-b6): exemption of the completing task as one boolean expression", "keep", _D, _CMP_OLD, "                completed = (not task_completes_parent and self.complete.is_set()) or runner.completed\n"),
+    V("h3 keep: exemption as a conditional expression", "keep", _D, _CMP_OLD, "                completed = runner.completed if task_completes_parent else (self.complete.is_set() or runner.completed)\n"),
+    V("h3 break: boolean expression exempts the wrong tasks", "break", _D, _CMP_OLD, "                completed = (not any_task_completes_parent and self.complete.is_set()) or runner.completed\n", "O1.6"),
+    V("h3 break: boolean expression with the exemption dropped by a precedence slip", "break", _D, _CMP_OLD, "                completed = not task_completes_parent and runner.completed or self.complete.is_set()\n", "O1.6"),
+    [V("h3 keep: poll of the complete event in a private helper of the executor", "keep", _D, _POLL_OLD, "                    completed = self._completed_externally() or runner.completed\n"),
+     V("", "keep", _D, _XCALL_AT, "    def _completed_externally(self):\n        return self.complete.is_set()\n\n" + _XCALL_AT)],
+    [V("h3 break: helper poll ends the completing task's own clients too", "break", _D, _CMP_OLD, "                completed = self._completed_externally() or runner.completed\n", "O1.6"),
+     V("", "break", _D, _XCALL_AT, "    def _completed_externally(self):\n        return self.complete.is_set()\n\n" + _XCALL_AT)],
+    # O1.1: cached properties are interpreted with their caching
+    [V("h3 keep (C01-b8): the matrix builder is a cached property", "keep", _D, _ALLOC_DECO, "    @functools.cached_property\n    def allocations(self):\n"),
+     V("", "keep", _D, "import datetime\n", "import datetime\nimport functools\n")],
+    [V("h3 keep: rows obtained from a plain property", "keep", _D, _ROWS_OLD, _ROW_NEW), V("", "keep", _D, _JPS_AT, "    @property\n    def _new_row(self):\n        return []\n\n" + _JPS_AT)],
+    [V("h3 break: rows obtained from a CACHED property are one shared list", "break", _D, _ROWS_OLD, _ROW_NEW, "O1.1"),
+     V("", "break", _D, _JPS_AT, "    @functools.cached_property\n    def _new_row(self):\n        return []\n\n" + _JPS_AT), V("", "break", _D, "import datetime\n", "import datetime\nimport functools\n")],
+    # O1.9 / O1.10: record types
+    [V("h3 keep (C02-b8): TaskAllocation as a dataclass, rows of the view as named tuples", "keep", _D, _TA_INIT, _TA_DC), V("", "keep", _D, _ADD_OLD, "        self.allocations.append(ClientTasks(client_id, tasks))\n"),
+     V("", "keep", _D, _VIEW_OLD, _VIEW_NT), V("", "keep", _D, _CT_AT, _CT_DEF + _CT_AT)],
+    [V("h3 break: named-tuple rows read at the previous index", "break", _D, _TA_INIT, _TA_DC, "O1.10"), V("", "break", _D, _ADD_OLD, "        self.allocations.append(ClientTasks(client_id, tasks))\n"),
+     V("", "break", _D, _VIEW_OLD, _VIEW_NT.replace("tasks_at_index = tasks[task_index]", "tasks_at_index = tasks[task_index - 1]")), V("", "break", _D, _CT_AT, _CT_DEF + _CT_AT)],
+]
+
+# O1.10 (executor adapter) on values: the loop of AsyncIoAdapter.run in other shapes
+_PS_OLD = ("            if task not in params_per_task:\n                param_source = track.operation_parameters(self.track, task)\n                params_per_task[task] = param_source\n"
+           "            schedule = schedule_for(task_allocation, params_per_task[task])\n")
+_PS_GET = ("            param_source = params_per_task.get(task)\n            if param_source is None:\n                param_source = track.operation_parameters(self.track, task)\n"
+           "                params_per_task[task] = param_source\n            schedule = schedule_for(parameter_source=param_source, task_allocation=task_allocation)\n")
+_AW_OLD = "            awaitables.append(final_executor())\n"
+_GA_OLD = "            _ = await asyncio.gather(*awaitables)\n"
+_EX_OLD = ("            async_executor = AsyncExecutor(\n                client_id, task, schedule, es, self.sampler, self.cancel, self.complete, task.error_behavior(self.abort_on_error)\n            )\n")
+_EX_KW = ("            async_executor = AsyncExecutor(\n                client_id=client_id, task=task, schedule=schedule, es=es, on_error=task.error_behavior(self.abort_on_error),\n"
+          "                sampler=self.sampler, complete=self.complete, cancel=self.cancel,\n            )\n")
+
+VARIANTS += [
+    V("h3 keep: parameter source looked up with .get() and a None test, schedule_for by keyword", "keep", _D, _PS_OLD, _PS_GET),
+    V("h3 break: .get() shape that never stores the parameter source (one per client)", "break", _D, _PS_OLD, _PS_GET.replace("                params_per_task[task] = param_source\n", ""), "O1.10"),
+    [V("h3 keep: executors collected first, coroutines created in the gather call", "keep", _D, _AW_OLD, "            awaitables.append(final_executor)\n"),
+     V("", "keep", _D, _GA_OLD, "            _ = await asyncio.gather(*[start() for start in awaitables])\n")],
+    [V("h3 break: coroutines created in the gather call for all but the first executor", "break", _D, _AW_OLD, "            awaitables.append(final_executor)\n", "O1.10"),
+     V("", "break", _D, _GA_OLD, "            _ = await asyncio.gather(*[start() for start in awaitables[1:]])\n")],
+    V("h3 keep: executor constructed with keyword arguments in another order", "keep", _D, _EX_OLD, _EX_KW),
+    V("h3 break: keyword arguments with cancel and complete crossed", "break", _D, _EX_OLD, _EX_KW.replace("complete=self.complete, cancel=self.cancel", "complete=self.cancel, cancel=self.complete"), "O1.10"),
+    V("h3 break: schedule computed for the first allocation of the row", "break", _D, "            schedule = schedule_for(task_allocation, params_per_task[task])\n",
+      "            schedule = schedule_for(self.task_allocations[0], params_per_task[task])\n", "O1.10"),
+    V("h3 break: the gather result is not awaited", "break", _D, _GA_OLD, "            _ = asyncio.gather(*awaitables)\n", "O1.10"),
 ]
